@@ -272,6 +272,18 @@ Theorem C15_repair_prefix :
 Proof. exact top_repair. Qed.
 Print Assumptions C15_repair_prefix.
 
+(** Repairing a log with one record damaged in its CRC field or payload (any single-bit flip there),
+    whatever follows it: exactly the records before it are kept. *)
+Theorem C15_repair_bitflip :
+  forall (msg : Type) (ser : msg -> bytes) (deser : bytes -> option msg)
+         (pre : list bytes) (pre_ms : list msg) (p post : bytes) (i : nat) (b' : N),
+    Forall2 (canon msg ser deser) pre pre_ms ->
+    wf_bytes p -> p <> [] -> (lenN p <= max_msg_size_bytes)%N ->
+    i < length (frame crc32c p) -> ~ (4 <= i < 8) -> (b' < 256)%N -> nth i (frame crc32c p) 0%N <> b' ->
+    repair crc32c msg ser deser (frames crc32c pre ++ set_nth i b' (frame crc32c p) ++ post) = (frames crc32c pre, true).
+Proof. exact top_repair_bitflip. Qed.
+Print Assumptions C15_repair_bitflip.
+
 (** Repairing a TRUNCATED log (a crash in the middle of a write): the result is the frames of a prefix
     of the written records — the record cut by the truncation is dropped, or (os.File zero-fill) completed
     to exactly what it was; never anything else, short of an explicit CRC collision on a payload that
